@@ -148,7 +148,7 @@ class Raw:
         try:
             self.parse(exp)
             valid = True
-        except SyntaxError:
+        except (SyntaxError, ValueError):    # CPython raises ValueError for some malformed f-strings
             valid = False
         key = f'reparse:{self.name}:({ln},{col},{eln},{ecol}):{text!r}'
         desc = f'put_src({text!r}, {ln}, {col}, {eln}, {ecol}, "reparse")'
@@ -331,7 +331,7 @@ class Raw:
                     continue  # not a trivia-only change (tokens merge / split): outside the property's precondition
                 try:
                     fresh_tree = ast.parse(new)
-                except SyntaxError:
+                except (SyntaxError, ValueError):
                     continue
                 self.one_offset(ln, c1, c2, text, new, fresh_tree)
         # same-length token-preserving re-bracketing ` a ` -> `(a)`: a legal offset edit that moves no node
@@ -344,7 +344,7 @@ class Raw:
                 new = splice(self.lines, text, ln, c1, ln, c2)
                 try:
                     fresh_tree = ast.parse(new)
-                except SyntaxError:
+                except (SyntaxError, ValueError):
                     continue
                 if ast.dump(fresh_tree, include_attributes=True) != ast.dump(ast.parse(self.src), include_attributes=True):
                     continue
@@ -395,7 +395,7 @@ class Raw:
             if in_fstr:   # pfst's own brace fix-up (`{ {`) may add a space inside a replacement field: judge the tree
                 try:
                     fresh_tree = ast.parse(root.src)
-                except SyntaxError:
+                except (SyntaxError, ValueError):
                     self.fail('C11', key + ':src', f'{desc}: resulting source does not parse')
                     return
             else:
@@ -477,5 +477,7 @@ def main_all_failures(payload):
     res = b_lib.run_parallel('b_raw', 'work', progs, payload)
     out = []
     for prog, r in res:
+        if r.get('harness_error'):
+            raise RuntimeError(f'harness error in {prog}: {r["harness_error"][:500]}')
         out.extend(r['failures'])
     return out
